@@ -74,6 +74,8 @@ class Block:
                 n += l[4].size() + l[6].size()
         if self.final[0] == "if":
             n += self.final[2].size() + self.final[3].size()
+        if self.final[0] == "try":
+            n += self.final[1].size() + self.final[3].size()
         return n
 
     def render(self, ind):
@@ -107,6 +109,12 @@ class Block:
         f = self.final
         if f[0] == "expr":
             out.append(p + f[1])
+        elif f[0] == "try":
+            out.append("%spyTry (do" % p)
+            out += f[1].render(ind + 4)
+            out[-1] += ") %s (do" % f[2]
+            out += f[3].render(ind + 4)
+            out[-1] += ")"
         else:
             out.append("%sif %s then do" % (p, f[1]))
             out += f[2].render(ind + 2)
@@ -619,6 +627,11 @@ class FnTr:
             x = self.fresh()
             out.append(("bind", x, "%s %s" % ("pyMaxOf" if obj is builtins.max else "pyMinOf", a[1])))
             return ("V", x)
+        if obj is math.log and len(n.args) == 2:
+            a = [self.toV(self.expr(x, env, out), x) for x in n.args]
+            x = self.fresh()
+            out.append(("bind", x, "mathLog2 %s %s" % (a[0], a[1])))
+            return ("V", x)
         if obj is math.sqrt and len(n.args) == 1:
             a = self.toV(self.expr(n.args[0], env, out), n)
             x = self.fresh()
@@ -798,6 +811,21 @@ class FnTr:
                 for a, nm in zip(carried, names):
                     env[a] = (env[a][0], nm)
                 continue
+            if isinstance(s, ast.Try):
+                # try: <block that returns or raises>  except <builtin exception class>: <block that returns or raises>
+                if s.orelse or s.finalbody or len(s.handlers) != 1 or s.handlers[0].name is not None or s.handlers[0].type is None:
+                    self.refuse(s, "try statement shape")
+                if self.loop_depth:
+                    self.refuse(s, "try inside a loop")
+                st = self.static(s.handlers[0].type, env)
+                if not st or st[0] != "obj" or st[1] is not ValueError:
+                    self.refuse(s, "except clause for something other than ValueError")
+
+                def kfall(e2, s=s):
+                    self.refuse(s, "a path through the try statement falls through")
+                A = self.stmts(s.body, env, kfall)
+                Hd = self.stmts(s.handlers[0].body, env, kfall)
+                return Block(lines, ("try", A, lstr("ValueError"), Hd))
             if isinstance(s, ast.While):
                 # `while c: body` — a loop over the loop-carried variables, bounded by the definition's `fuel` parameter
                 # (Python's loop may not terminate; running out of fuel is the model-bound error `.fuel`)
